@@ -349,6 +349,8 @@ pub struct StepInfo {
     /// dimension of the key
     pub sibling_dim: Option<&'static str>,
     pub len_source_as_ip_version: bool,
+    /// this delivery opened the 1025th simultaneous stream
+    pub stream_1025: bool,
 }
 
 #[derive(Clone)]
@@ -747,6 +749,9 @@ impl Exec {
                     }
                 }
                 self.check_stream_count("a delivery")?;
+                if info.new_stream && self.model.streams.len() == 1025 {
+                    info.stream_1025 = true;
+                }
                 if self.steps % 16 == 0 && self.abstract_states.len() < 64 {
                     self.abstract_states.push(self.model.abstract_state());
                 }
